@@ -176,6 +176,12 @@ heap after a full collection is not always empty) -/
 example : ((run ([.alloc] ++ [.gc 2])).heap.get 0).isSome :=
   (collect_keeps_reachable [.alloc] 2 0 (Reach.root (by decide))).1
 
+/-- an element fetched through a container and held by the host (`take`) survives the container's owner letting go of it:
+the history is accepted (not a no-op) and leaves two holders -/
+example : (run [.alloc, .alloc, .link 1 0, .dropRoot 0, .take 1 0]).roots = [0, 1] ∧
+    (run [.alloc, .alloc, .link 1 0, .dropRoot 0, .take 1 0]).heap.get 0 = some { refs := 2, gcRefs := 0, gen := 0, children := [] } :=
+  ⟨rfl, rfl⟩
+
 /-! ## the defect that was repaired, on the model of the unrepaired code (`legacy = true`) -/
 
 /-- `x[1]=1; hawk::gc(0); y[1]=x; y[2]=y; y=@nil; hawk::gc(0)`:
